@@ -4,7 +4,8 @@ from harness import common, gen, hist, alpha
 PID = "C08"
 RULE = ("seeded random files holding 1-3 trees; reads with every kind of emdpath (each node path with/without leading '/', "
         "absent paths, root only, none) x 3 tree options; sha256 of the file bytes before and after every read (successful or "
-        "not); non-trivial = read of a non-root path or an absent path; distinct by recipe hash")
+        "not); in a third of the cases the file CHANGES between reads (an append adding a root Metadata entry) and is read again; "
+        "non-trivial = read of a non-root path or an absent path; distinct by recipe hash")
 
 
 def mk_case(trees, reads, later=None):
